@@ -281,6 +281,8 @@ class Run:
         return [x for x in json.load(open(f)).get("findings", []) if x.get("property") == self.pid and x.get("status") == "open"]
 
     def main(self):
+        for f in glob.glob(os.path.join(self.out, "violation_*.json")):   # replay files of an earlier run
+            os.remove(f)
         self.build()
         self.audit()
         fams = self.cfg.get("families", [])
